@@ -23,7 +23,12 @@ RULE = ("ntt120: explicit values through b_from_znx64(+masked)/c_from_znx64/c_fr
         "vec_mat{1col,1col_x2,2cols_x2}_product_bbc/bbb/baa/add_bbb/add_ccc/NttAdd..NttNegateAssign/split_precompmul/modq_red/"
         "modq_pow, ntt_ref/intt_ref (n = 1 … 1024, whole tables compared for n ≤ 1024) and the n=1 HAL pipeline; generic functions for Primes29/30/31, trait forms on NTT120Ref and NTT120Avx; "
         "boundary classes 0, ±1, ±2^62, i64::MIN/MAX, k·q_j+d, ±Q/2±d, all-max lazy residues, ell up to 9999; "
-        "per-value counting for per-value operations; distinct = (op, target, value class, ell class)")
+        "per-value counting for per-value operations; distinct = (op, target, value class, ell class); "
+        "HAL level: whole programs through pvh hal on NTT120Ref and NTT120Avx (vec_znx_dft_apply(step, offset), cnv_prepare_left/right + "
+        "cnv_apply_dft / cnv_pairwise_apply_dft, vmp_prepare + vmp_apply_dft_to_dft(limb_offset, all parities of limb_offset·cols_out / "
+        "col_max / ncols), random compositions of dft_apply / svp / dft_add / dft_sub / negate up to depth 4), the raw q120b words of the "
+        "result buffer compared word for word with the lane compositions of Model/Ntt120Hal.lean; the VmpPMat offsets of a single "
+        "non-zero entry compared with Ntt120.vmpSlotAddr")
 
 
 def bigq(p):
@@ -176,7 +181,36 @@ def csv(v):
 def case(rng, quick=True):
     """-> (line, meta) ; meta: op, p, label, classes (one per counted value), data for the oracle"""
     op = rng.choice(["bfrom", "bfrom", "bfromm", "cfrom", "cfromb", "bto", "bto", "consume", "bbc", "bbc", "bbcx2", "bbc2c", "bbb",
-                     "baa", "lazy", "lazy", "addccc", "prim", "pipe", "pipe", "xform", "xform", "xform"])
+                     "baa", "lazy", "lazy", "addccc", "prim", "pipe", "pipe", "xform", "xform", "xform", "pack", "pack"])
+    if op == "pack":
+        # the x2-block pack kernels of the convolution (NttPackLeft1BlkX2 … on NTT120Ref / NTT120Avx)
+        tok, p, lab = rng.choice([("be=ref", 30, "NTT120Ref"), ("be=avx", 30, "NTT120Avx")])
+        sub = rng.choice(["packl", "packr", "ppackl", "ppackr"])
+        rows = rng.range(0, 4)
+        nblk = rng.range(1, 3)
+        blk = rng.below(nblk)
+        cols = rng.range(1, 2)
+        w = 8 if sub in ("packl", "ppackl") else 16
+        stride = w * nblk * cols
+        total = stride * max(rows, 1)
+        vc = rng.choice(["classes", "classes", "all-max", "canonical"])
+        def val(i):
+            qq = PRIMES[p][(i % 8) % 4] if w == 8 else PRIMES[p][(i % 16 % 8) // 2]
+            if w == 8:
+                return U64 - 1 if vc == "all-max" else (rng.below(qq) if vc == "canonical" else u64_value(rng, p)[0])
+            return U32 - 1 if vc == "all-max" else (rng.below(qq) if vc == "canonical" else u32_value(rng, p)[0])
+        x = [val(i) for i in range(total)]
+        y = [val(i) for i in range(total)]
+        if w == 16 and sub == "ppackr" and vc != "canonical" and tok == "be=ref":
+            pass  # u32 + u32 may wrap in the reference (debug builds would panic on overflow; the harness profile wraps)
+        short = rng.chance(1, 30) and total > 0 and tok != "be=avx"
+        if short:
+            x = x[:-1]
+            y = y[:-1]
+            vc = "short-operand"
+        ys = f" y={csv(y)}" if sub.startswith("pp") else ""
+        return f"{sub} {tok} rows={rows} stride={stride} blk={blk} x={csv(x)}{ys}", {"op": sub, "p": p, "label": lab, "classes": [vc] * max(rows, 1), "rows": rows,
+                                                                                      "stride": stride, "blk": blk, "x": x, "y": y}
     if op == "xform":
         # ntt_ref / intt_ref with a fresh table (NttDFTExecute on NTT120Ref / NTT120Avx for be=)
         tok, p, lab = target(rng)
@@ -363,6 +397,8 @@ def oracle(meta, ans):
     if ans.startswith("panic"):
         if op in ("bbc", "bbcx2", "bbc2c", "bbb", "baa") and meta["classes"] == ["short-operand"]:
             return None
+        if op in ("packl", "packr", "ppackl", "ppackr") and set(meta["classes"]) == {"short-operand"}:
+            return None  # the reference's `debug_assert!`s on the slice lengths (the model raises the same panic class)
         return "unexpected panic"
     try:
         if op in ("bfrom", "bfromm"):
@@ -462,6 +498,31 @@ def oracle(meta, ans):
                             got = sum(r[4 * i + k] * pow(pt, i, qq) for i in range(n)) % qq
                             if (got - x[4 * s_ + k]) % qq:
                                 return f"intt output of prime {k} does not evaluate back to the input at position {s_}"
+        elif op in ("packl", "packr", "ppackl", "ppackr"):
+            if meta["classes"][0] == "short-operand":
+                return None
+            r = ints(ans)
+            rows, stride, blk, x, y = meta["rows"], meta["stride"], meta["blk"], meta["x"], meta["y"]
+            if len(r) != 16 * rows:
+                return "packed block has the wrong length"
+            for row in range(rows):
+                for e in range(8 if op in ("packl", "ppackl") else 16):
+                    if op == "packl":
+                        want = [x[row * stride + 8 * blk + e] % q[e % 4], 0]
+                        got = r[16 * row + 2 * e:16 * row + 2 * e + 2]
+                    elif op == "ppackl":
+                        i = row * stride + 8 * blk + e
+                        want = [(x[i] + y[i]) % q[e % 4], 0]
+                        got = r[16 * row + 2 * e:16 * row + 2 * e + 2]
+                    elif op == "packr":
+                        want = [x[(rows - 1 - row) * stride + 16 * blk + e]]
+                        got = [r[16 * row + e]]
+                    else:
+                        i = (rows - 1 - row) * stride + 16 * blk + e
+                        want = [(x[i] + y[i]) % U32]
+                        got = [r[16 * row + e]]
+                    if got != want:
+                        return f"{op}: row {row} entry {e} is {got}, expected {want}"
         elif op == "pow":
             qq = meta["q"]
             e = meta["n"] % (qq - 1)
@@ -482,6 +543,224 @@ def oracle(meta, ans):
     except (ValueError, IndexError) as e:
         return f"unparsable answer ({e})"
     return None
+
+
+# ---------------------------------------------------------------------------------------------------------------
+# 3. HAL level: the raw q120b words stored in DFT-domain buffers by whole HAL calls (`pvh hal … ; raw D`, NTT120Ref and
+#    NTT120Avx) against the lane compositions of Model/Ntt120Hal.lean (`pdriver ntt120 hdft|hcnv|hcnvp|hvmp|hexpr|hslot`)
+# ---------------------------------------------------------------------------------------------------------------
+
+def _poly(rng, n, small=False):
+    if small:
+        return [rng.range(-9, 9) for _ in range(n)]
+    return [i64_value(rng, 30)[0] for _ in range(n)]
+
+
+def _flat(polys):
+    return csv([c for p in polys for c in p])
+
+
+def _mask(rng):
+    c = rng.below(5)
+    if c == 0:
+        return -1
+    if c == 1:
+        return (1 << rng.range(1, 62)) - 1
+    if c == 2:
+        return -(1 << rng.range(1, 62))
+    if c == 3:
+        return 0
+    return i64_value(rng, 30)[0]
+
+
+def _expr(rng, n, depth):
+    """-> (tokens for the driver, builder(stmts, fresh) -> buffer name)"""
+    c = rng.below(7) if depth > 0 else rng.below(2)
+    if c == 0 and depth < 3:
+        def bz(st, fresh):
+            d = fresh("E")
+            st += [f"dft {d} 1 1 z", f"dft_zero {d} 0"]
+            return d
+        return ["zero"], bz
+    if c <= 1:
+        a = _poly(rng, n)
+        def bd(st, fresh, a=a):
+            v, d = fresh("V"), fresh("E")
+            st += [f"vec {v} 1 1 d:{csv(a)}", f"dft {d} 1 1 z", f"dft_apply 1 0 {d} 0 {v} 0"]
+            return d
+        return ["dft", ":".join(str(x) for x in a)], bd
+    if c == 2:
+        pl = _poly(rng, n)
+        t, b = _expr(rng, n, depth - 1)
+        def bs(st, fresh, pl=pl, b=b):
+            e = b(st, fresh)
+            sc, pp, d = fresh("S"), fresh("P"), fresh("E")
+            st += [f"sca {sc} 1 d:{csv(pl)}", f"svp {pp} 1", f"svp_prepare {pp} 0 {sc} 0", f"dft {d} 1 1 z",
+                   f"svp_apply_dft_to_dft {d} 0 {pp} 0 {e} 0"]
+            return d
+        return ["svp", ":".join(str(x) for x in pl)] + t, bs
+    if c in (3, 4, 5):
+        op = "add" if c != 4 else "sub"
+        t1, b1 = _expr(rng, n, depth - 1)
+        t2, b2 = _expr(rng, n, depth - 1)
+        def bb(st, fresh, b1=b1, b2=b2, op=op):
+            x = b1(st, fresh)
+            y = b2(st, fresh)
+            d = fresh("E")
+            st += [f"dft {d} 1 1 z", f"dft_{op} {d} 0 {x} 0 {y} 0"]
+            return d
+        return [op] + t1 + t2, bb
+    t, b = _expr(rng, n, depth - 1)
+    def bn(st, fresh, b=b):
+        x = b(st, fresh)
+        z, d = fresh("Z"), fresh("E")
+        st += [f"dft {z} 1 1 z", f"dft_zero {z} 0", f"dft {d} 1 1 z", f"dft_sub {d} 0 {z} 0 {x} 0"]
+        return d
+    return ["neg"] + t, bn
+
+
+def hal_case(rng, kind):
+    """-> (hal statements, buffer to dump, driver request (without back end), meta)"""
+    n = rng.choice([2, 2, 4, 4, 8, 16, 64] if kind in ("dft", "cnv", "cnvp", "expr") else [2, 4, 4, 8, 16])
+    if kind == "dft":
+        sa, rs, step, off = rng.range(1, 4), rng.range(1, 5), rng.range(1, 3), rng.range(0, 4)
+        a = [_poly(rng, n) for _ in range(sa)]
+        st = [f"vec X 1 {sa} d:{_flat(a)}", f"dft D 1 {rs} r30:{rng.below(1 << 30)}", f"dft_apply {step} {off} D 0 X 0"]
+        return st, "D", f"hdft n={n} step={step} off={off} rs={rs} x={_flat(a)}", {"kind": kind, "n": n, "shape": (sa, rs, step, off)}
+    if kind in ("cnv", "cnvp"):
+        two = kind == "cnvp"
+        sa, sb, la, lb = rng.range(1, 3), rng.range(1, 3), rng.range(1, 3), rng.range(1, 3)
+        rs, off = rng.range(1, 5), rng.range(0, 6)
+        ma, mb = _mask(rng), _mask(rng)
+        cols = 2 if two else 1
+        A = [[_poly(rng, n) for _ in range(sa)] for _ in range(cols)]
+        B = [[_poly(rng, n) for _ in range(sb)] for _ in range(cols)]
+        st = [f"vec A {cols} {sa} d:{_flat([p for c in A for p in c])}", f"vec B {cols} {sb} d:{_flat([p for c in B for p in c])}",
+              f"cnvl L {cols} {la}", f"cnvr R {cols} {lb}", f"cnv_prepare_left L A {ma}", f"cnv_prepare_right R B {mb}",
+              f"dft D 1 {rs} r30:{rng.below(1 << 30)}"]
+        if two:
+            st.append(f"cnv_pairwise {off} D 0 L R 0 1")
+            req = (f"hcnvp n={n} rs={rs} off={off} la={la} lb={lb} ma={ma} mb={mb} x={_flat(A[0])} x2={_flat(A[1])} "
+                   f"y={_flat(B[0])} y2={_flat(B[1])}")
+        else:
+            st.append(f"cnv_apply_dft {off} D 0 L 0 R 0")
+            req = f"hcnv n={n} rs={rs} off={off} la={la} lb={lb} ma={ma} mb={mb} x={_flat(A[0])} y={_flat(B[0])}"
+        return st, "D", req, {"kind": kind, "n": n, "shape": (sa, sb, la, lb, rs, off)}
+    if kind == "vmp":
+        rows, cin, cout, size = rng.range(1, 3), rng.range(1, 2), rng.range(1, 3), rng.range(1, 3)
+        sa, rsz, lo = rng.range(1, 4), rng.range(1, 4), rng.range(0, 3)
+        mat = {}
+        order = []
+        for r in range(rows):
+            for ci in range(cin):
+                for c in range(cout):
+                    for j in range(size):
+                        pl = _poly(rng, n)
+                        mat[(r * cin + ci, j * cout + c)] = pl
+                        order.append(pl)
+        a = {}
+        aord = []
+        for c in range(cin):
+            for j in range(sa):
+                pl = _poly(rng, n)
+                a[j * cin + c] = pl
+                aord.append(pl)
+        nrows, ncols = cin * rows, cout * size
+        st = [f"mat M {rows} {cin} {cout} {size} d:{_flat(order)}", f"vmp P {rows} {cin} {cout} {size}", "vmp_prepare P M",
+              f"dft A {cin} {sa} d:{_flat(aord)}", f"dft D {cout} {rsz} r30:{rng.below(1 << 30)}", f"vmp_apply_dft_to_dft D A P {lo}"]
+        req = (f"hvmp n={n} nrows={nrows} ncols={ncols} off={lo * cout} rl={rsz * cout} x={_flat([a[i] for i in range(sa * cin)])} "
+               f"y={_flat([mat[(i, q)] for i in range(nrows) for q in range(ncols)])}")
+        return st, "D", req, {"kind": kind, "n": n, "shape": (rows, cin, cout, size, sa, rsz, lo),
+                              "parity": (lo * cout % 2, min(ncols, rsz * cout + lo * cout) % 2, ncols % 2)}
+    if kind == "expr":
+        toks, build = _expr(rng, n, 4)
+        cnt = [0]
+
+        def fresh(pfx):
+            cnt[0] += 1
+            return f"{pfx}{cnt[0]}"
+        st = []
+        d = build(st, fresh)
+        return st, d, f"hexpr n={n} e={','.join(toks)}", {"kind": kind, "n": n, "shape": (len(toks),), "ops": sorted(set(t for t in toks if t.isalpha()))}
+    raise ValueError(kind)
+
+
+def slot_case(rng):
+    """one non-zero entry of a prepared matrix: where do its x2-blocks land in the raw `VmpPMat`?"""
+    n = rng.choice([2, 4, 8])
+    rows, cin, cout, size = rng.range(1, 3), rng.range(1, 2), rng.range(1, 3), rng.range(1, 3)
+    nrows, ncols = rows * cin, cout * size
+    ti, tq = rng.below(nrows), rng.below(ncols)
+    order = []
+    for r in range(rows):
+        for ci in range(cin):
+            for c in range(cout):
+                for j in range(size):
+                    order.append([3 + k for k in range(n)] if (r * cin + ci, j * cout + c) == (ti, tq) else [0] * n)
+    st = [f"mat M {rows} {cin} {cout} {size} d:{_flat(order)}", f"vmp P {rows} {cin} {cout} {size}", "vmp_prepare P M"]
+    reqs = [f"hslot nrows={nrows} ncols={ncols} row={ti} col={tq} blk={b}" for b in range(n // 2)]
+    return st, reqs, {"n": n, "nrows": nrows, "ncols": ncols, "row": ti, "col": tq}
+
+
+def hal_gate(ctx, binp, drv, rng, quick):
+    broken = []
+    plan = [("dft", 24), ("cnv", 40), ("cnvp", 24), ("vmp", 48), ("expr", 40)] if quick else [("dft", 150), ("cnv", 300), ("cnvp", 200), ("vmp", 400), ("expr", 300)]
+    cases = [hal_case(rng, kind) for kind, cnt in plan for _ in range(cnt)]
+    words = 0
+    hist = {}
+    for be, dbe in (("ntt120ref", "ref"), ("ntt120avx", "avx")):
+        hl = [f"{k} be={be} n={c[3]['n']} ; " + " ; ".join(c[0]) + f" ; raw {c[1]}" for k, c in enumerate(cases)]
+        dl = [f"{k} ntt120 {c[2].replace(' ', f' be={dbe} ', 1)}" for k, c in enumerate(cases)]
+        _, iout, _ = ctx.run_lines(binp, ["hal"], hl)
+        _, mout, _ = ctx.run_lines(drv, [], dl)
+        nbad = 0
+        for k, c in enumerate(cases):
+            a, b = ans_of(iout, k), ans_of(mout, k)
+            meta = c[3]
+            got = a.split("=raw:", 1)[1] if "=raw:" in a else a
+            exp = b.split(" spec=")[0].replace("|", ",")
+            ok = got == exp and a.startswith("ok ")
+            nontrivial = any(ch in "123456789" for ch in got)
+            ctx.count_case(("ntt120-hal", meta["kind"], be, meta["n"], meta.get("parity"), tuple(meta.get("ops", ()))), nontrivial)
+            hk = f"hal-{meta['kind']}/{be}"
+            hist[hk] = hist.get(hk, 0) + 1
+            words += got.count(",") + 1
+            if not ok:
+                nbad += 1
+                if nbad <= 3:
+                    ctx.disagreements += 1
+                    gw, ew = got.split(","), exp.split(",")
+                    first = next((i for i, (x, y) in enumerate(zip(gw, ew)) if x != y), min(len(gw), len(ew)))
+                    ctx.violation("NTT120 HAL call stores different q120b words than the lane composition of the model",
+                                  {"program": hl[k][:3000], "model_request": dl[k][:3000], "first_differing_word": first,
+                                   "implementation": ",".join(gw[first:first + 8]), "model": ",".join(ew[first:first + 8]),
+                                   "lengths": (len(gw), len(ew)), "replay": "printf '<program>\\n' | harness/target/release/pvh hal"}, False)
+        if nbad:
+            broken.append(f"{nbad} NTT120 HAL-level disagreements on {be}")
+    # the block-interleaved layout of vmp_prepare: the x2-blocks of one non-zero entry sit exactly at vmpSlotAddr
+    sc = [slot_case(rng) for _ in range(16 if quick else 100)]
+    hl = [f"{k} be=ntt120ref n={c[2]['n']} ; " + " ; ".join(c[0]) + " ; raw P" for k, c in enumerate(sc)]
+    _, iout, _ = ctx.run_lines(binp, ["hal"], hl)
+    flatreq = [(k, r) for k, c in enumerate(sc) for r in c[1]]
+    _, mout, _ = ctx.run_lines(drv, [], [f"{i} ntt120 {r}" for i, (k, r) in enumerate(flatreq)])
+    addr = {}
+    for i, (k, r) in enumerate(flatreq):
+        addr.setdefault(k, set()).add(ans_of(mout, i))
+    for k, c in enumerate(sc):
+        a = ans_of(iout, k)
+        ws = a.split("=raw:", 1)[1].split(",") if "=raw:" in a else []
+        nz = {str(16 * (i // 8)) for i, w in enumerate(ws) if w != "0"}
+        ctx.count_case(("ntt120-hal", "slot", c[2]["ncols"] % 2, c[2]["col"] == c[2]["ncols"] - 1), True)
+        if nz != addr.get(k) or not ws:
+            ctx.disagreements += 1
+            ctx.violation("vmp_prepare stores the blocks of a matrix entry at other offsets than Ntt120.vmpSlotAddr",
+                          {"case": c[2], "nonzero_u32_offsets": sorted(nz, key=int)[:16], "model": sorted(addr.get(k, []), key=int)[:16], "program": hl[k][:1500]}, False)
+            broken.append("vmp_prepare layout")
+            break
+    ctx.cov["ntt120_hal_programs"] = 2 * len(cases) + len(sc)
+    ctx.cov["ntt120_hal_words_compared"] = words
+    ctx.cov["ntt120_hal_histogram"] = hist
+    return broken
 
 
 def ans_of(lines, k):
@@ -577,4 +856,6 @@ def gate(ctx, binp, drv):
     ctx.cov["ntt120_histogram"] = hist
     ctx.cov["ntt120_values"] = values
     ctx.cov["ntt120_requests"] = len(cases)
+    if not broken:
+        broken += hal_gate(ctx, binp, drv, rng, quick)
     return broken
